@@ -278,6 +278,7 @@ fn arb_case(maps: bool, max_ops: usize) -> impl Strategy<Value = Case> {
                 flags: AgentFlags {
                     cascade_value: cascade && !maps,
                     cascade_map: cascade && maps,
+                    ..Default::default()
                 },
                 programs,
                 ops,
